@@ -457,14 +457,14 @@ func (c *c07) buildCases(thorough bool) []*c07Case {
 				continue // nothing to move; covered by none/random-bytes
 			}
 			type hk struct {
-				name          string
-				msgs          int
-				failAt        int
-				mode          string
-				badSig        string
-				expect        string
-				maxGas        uint64
-				zeroGas       bool
+				name    string
+				msgs    int
+				failAt  int
+				mode    string
+				badSig  string
+				expect  string
+				maxGas  uint64
+				zeroGas bool
 			}
 			hooks := []hk{
 				{name: "hook-ok", msgs: 1, expect: "CREDIT"},
